@@ -128,7 +128,7 @@ fn place_json<'tcx>(tcx: TyCtxt<'tcx>, p: &Place<'tcx>) -> J {
     for e in p.projection.iter() {
         proj.push(match e {
             ProjectionElem::Deref => J::s("*"),
-            ProjectionElem::Field(f, t) => J::obj(vec![("f", J::Int(f.as_usize() as i128)), ("ty", J::s(ty_str(t)))]),
+            ProjectionElem::Field(f, t) => J::obj(vec![("f", J::Int(f.as_usize() as i128)), ("ty", ty_json(tcx, t))]),
             ProjectionElem::Index(l) => J::obj(vec![("idx", J::Int(l.as_usize() as i128))]),
             ProjectionElem::ConstantIndex { offset, min_length, from_end } => J::obj(vec![
                 ("cidx", J::Int(offset as i128)),
